@@ -43,6 +43,14 @@ def gen_runs(rng, n, tier):
             for k in keys[:3]:
                 c["plan"][k] = rng.choice(["lnk/z", "lnk/../z", "lnk/../../z", "lnk/../../../z", "up/z", "up/r1/z",
                                            "lnk/../../../r1/z", "lnk/../../../r1x/z", "deep/dd/../../../z"])
+        # an input directory (of an explicitly named file) with a sibling whose name differs only by Unicode
+        # normalisation or letter case: on this file system these are different directories
+        if c["mode"] == "path" and rng.random() < 0.12:
+            inner, twin = rng.choice([("caf\u00e9", "cafe\u0301"), ("Dir", "dir"), ("\u212bngstrom", "\u00c5ngstrom")])
+            c["spec"].update({"r1/" + inner: None, "r1/" + inner + "/f": "C:twin", "r1/" + twin: None})
+            c["explicit"] = ["r1/" + inner + "/f"]
+            c["plan"]["r1/" + inner + "|f"] = "../" + twin + "/" + rng.choice(["f", "g"])
+            c["order"]["r1/" + inner + "|f"] = 0
         yield c
 
 
